@@ -92,11 +92,11 @@ theorem C02_flat_needs_no_fuel (env : Env) (s : Str) (rt : Rt) (w : W) :
 (`List Char`); their UTF-8 encoding decodes back to the same characters. -/
 theorem C02_utf8 (frag : Str) : (String.ofList frag).toList = frag := by simp
 
-/-- no render step can produce the sink error by itself: with a sink that never fails the result
-is never `io` unless a pure evaluator returned it (none does) — corollary of the sink simulation. -/
-theorem C02_find_never_panics (d : Obj) (k : Sc) (p : List Sc) (h : objContains d k.render = true) :
-    (find (.obj d) (k :: p)).isPanic = false := by
-  rw [C18.find_no_panic d k p h]; cases tryFind (V.obj d) (k :: p) <;> rfl
+/-- `find` — the public lookup of `liquid_core::model` — returns a value or an error for EVERY value
+and path, also when the first key does not exist (it used to reach its final `panic!` there until
+the `fix:` commit; `C18.find_old_counterexample`). -/
+theorem C02_find_never_panics (v : V) (path : List Sc) : (find v path).isPanic = false := by
+  rw [C18.find_eq_ofOpt]; cases tryFind v path <;> rfl
 
 /-! ### termination: the fuel is only a device -/
 
